@@ -36,6 +36,27 @@ import (
 
 var c37Universe = []string{"orders", "payments", "secret", "audit_log", "orders_eu", "metrics", "t", "pii.users"}
 
+// c37SegSize: the size of topic i's only segment. The numbers are odd and all
+// sums of two of them (a topic with itself included) are distinct, so EXPLAIN's
+// byte estimate - one topic, or left + right of a join, possibly the same topic
+// twice - identifies exactly which topics' segments it counted. All sums < 1024,
+// so the estimate is printed exactly ("N B").
+var c37SegSize = []int64{1, 3, 7, 15, 25, 41, 61, 89}
+
+func c37DecodeEstimate(n int64) ([]string, bool) {
+	for i, a := range c37SegSize {
+		if n == a {
+			return []string{c37Universe[i]}, true
+		}
+		for j := i; j < len(c37SegSize); j++ {
+			if n == a+c37SegSize[j] {
+				return []string{c37Universe[i], c37Universe[j]}, true
+			}
+		}
+	}
+	return nil, false
+}
+
 func c37TopicIndex(t string) int {
 	for i, u := range c37Universe {
 		if u == t {
@@ -75,7 +96,7 @@ func (l c37Lister) ListCompleted(ctx context.Context) ([]discovery.SegmentRef, e
 	out := make([]discovery.SegmentRef, 0, len(c37Universe))
 	for i, t := range c37Universe {
 		out = append(out, discovery.SegmentRef{Topic: t, Partition: 0, BaseOffset: 0,
-			SegmentKey: "ns/" + t + "/0/segment-00000000000000000000.kfs", IndexKey: "ns/" + t + "/0/segment-00000000000000000000.index", SizeBytes: 1 << uint(i)})
+			SegmentKey: "ns/" + t + "/0/segment-00000000000000000000.kfs", IndexKey: "ns/" + t + "/0/segment-00000000000000000000.index", SizeBytes: c37SegSize[i]})
 	}
 	return out, nil
 }
@@ -552,7 +573,7 @@ type c37Read struct {
 // c37TopicsRead is the monitor's answer to "which topics did the upstream read
 // for this query": storage seam events plus the topic-private markers and topic
 // names present in the answer that went back through the proxy.
-func c37TopicsRead(events []c37Event, ans c37Answer) []c37Read {
+func c37TopicsRead(events []c37Event, ans c37Answer) (reads []c37Read, undecodable []string) {
 	seen := map[string]string{}
 	add := func(t, how string) {
 		if c37TopicIndex(t) < 0 {
@@ -575,12 +596,16 @@ func c37TopicsRead(events []c37Event, ans c37Answer) []c37Read {
 	}
 	for _, c := range ans.Cells {
 		if rest, ok := strings.CutPrefix(c, "  Estimated bytes: "); ok {
-			if n, err := strconv.Atoi(strings.TrimSuffix(rest, " B")); err == nil {
-				for i, t := range c37Universe {
-					if n&(1<<uint(i)) != 0 {
+			if n, err := strconv.ParseInt(strings.TrimSuffix(rest, " B"), 10, 64); err == nil && n > 0 {
+				if ts, ok := c37DecodeEstimate(n); ok {
+					for _, t := range ts {
 						add(t, "segments counted by EXPLAIN")
 					}
+				} else {
+					undecodable = append(undecodable, c)
 				}
+			} else if err != nil {
+				undecodable = append(undecodable, c)
 			}
 		}
 		if rest, ok := strings.CutPrefix(c, "c37col_"); ok {
@@ -597,7 +622,7 @@ func c37TopicsRead(events []c37Event, ans c37Answer) []c37Read {
 		out = append(out, c37Read{t, how})
 	}
 	sort.Slice(out, func(i, j int) bool { return out[i].Topic < out[j].Topic })
-	return out
+	return out, undecodable
 }
 
 // c37Class names the way a forwarded query escaped authorization, from the witness alone.
@@ -766,7 +791,11 @@ func (e *c37Env) session(acl c37ACL, cacheEntries int, qs []c37Query) ([]c37Obs,
 			o.Step.Audit = o.Step.Audit[:400] + "…"
 		}
 		if len(o.Fwd) > 0 {
-			o.Step.Read = c37TopicsRead(o.Events, ans)
+			var undec []string
+			o.Step.Read, undec = c37TopicsRead(o.Events, ans)
+			if len(undec) > 0 {
+				return out, fmt.Sprintf("query %d: EXPLAIN estimate %q cannot be attributed to topics", qi, undec)
+			}
 			for _, rd := range o.Step.Read {
 				if !acl.allows(rd.Topic) {
 					o.Bad = append(o.Bad, rd)
@@ -787,6 +816,17 @@ func TestVerifC37Proxy(t *testing.T) {
 		"a topic that does not exist upstream (e.g. a name with a trailing ';') cannot be read and is never counted",
 		"queries are ASCII: the parser crash on length-changing runes (C35) would kill the proxy process too",
 		"violation classes that mention byte 512 are assigned by a counterfactual: the same query with its whitespace squeezed below 512 bytes, sent alone under the same ACL, is denied or reads no forbidden topic")
+	if rp := verifkit.Replay(); rp != nil {
+		// bin/check --replay <witness>: only the witness session is run (floors do not apply)
+		if w, ok := rp["replay"].(map[string]any); ok {
+			if acl, cache, qs, ok := c37Replay(w); ok {
+				env := c37NewEnv(t)
+				defer env.close()
+				c37Judge(r, env, 0, -1, acl, cache, qs)
+				return
+			}
+		}
+	}
 	const workers = 4 // each with its own proxy listener, upstream server and recorder
 	n := r.N(400, 6000)
 	var wg sync.WaitGroup
@@ -809,28 +849,59 @@ func TestVerifC37Proxy(t *testing.T) {
 }
 
 func c37Session(r *verifkit.Run, env *c37Env, si int) {
-	{
-		rng := r.Rand(si)
-		aclIdx := si % len(c37ACLs)
-		acl := c37ACLs[aclIdx]
-		cacheEntries := []int{0, 1, 2, 100}[rng.Intn(4)]
-		var qs []c37Query
-		nq := 1 + rng.Intn(4)
-		for len(qs) < nq {
-			q := c37GenQuery(rng, acl)
-			if rng.Intn(25) == 0 {
-				q.Shape = "extended_parse/" + q.Shape
-			}
-			qs = append(qs, q)
-			switch rng.Intn(4) {
-			case 0:
-				qs = append(qs, c37Variant(rng, q))
-			case 1:
-				if sw, ok := c37SwapTail(rng, q, acl); ok {
-					qs = append(qs, sw)
-				}
+	rng := r.Rand(si)
+	aclIdx := si % len(c37ACLs)
+	acl := c37ACLs[aclIdx]
+	cacheEntries := []int{0, 1, 2, 100}[rng.Intn(4)]
+	var qs []c37Query
+	nq := 1 + rng.Intn(4)
+	for len(qs) < nq {
+		q := c37GenQuery(rng, acl)
+		if rng.Intn(25) == 0 {
+			q.Shape = "extended_parse/" + q.Shape
+		}
+		qs = append(qs, q)
+		switch rng.Intn(4) {
+		case 0:
+			qs = append(qs, c37Variant(rng, q))
+		case 1:
+			if sw, ok := c37SwapTail(rng, q, acl); ok {
+				qs = append(qs, sw)
 			}
 		}
+	}
+	c37Judge(r, env, si, aclIdx, acl, cacheEntries, qs)
+}
+
+// c37Replay rebuilds the session of a witness written by this check.
+func c37Replay(w map[string]any) (acl c37ACL, cache int, qs []c37Query, ok bool) {
+	strs := func(v any) []string {
+		var out []string
+		if l, ok := v.([]any); ok {
+			for _, x := range l {
+				out = append(out, fmt.Sprint(x))
+			}
+		}
+		return out
+	}
+	if a, ok := w["acl"].(map[string]any); ok {
+		acl = c37ACL{Allow: strs(a["allow"]), Deny: strs(a["deny"])}
+	}
+	if c, ok := w["cache_max_entries"].(float64); ok {
+		cache = int(c)
+	}
+	if l, ok := w["session"].([]any); ok {
+		for _, x := range l {
+			if st, ok := x.(map[string]any); ok {
+				qs = append(qs, c37Query{Text: fmt.Sprint(st["query"]), Shape: fmt.Sprint(st["shape"])})
+			}
+		}
+	}
+	return acl, cache, qs, len(qs) > 0
+}
+
+func c37Judge(r *verifkit.Run, env *c37Env, si, aclIdx int, acl c37ACL, cacheEntries int, qs []c37Query) {
+	{
 		obs, problem := env.session(acl, cacheEntries, qs)
 		if problem != "" {
 			r.Inconclusive(fmt.Sprintf("session %d: %s", si, problem))
